@@ -238,7 +238,7 @@ impl Prop for C05 {
             for f in &prog.features {
                 out.count(&format!("feature.{f}"));
             }
-            if k == 0 && idx < 2 {
+            if out.sample.is_none() && idx < 32 {
                 out.sample = Some(json!({"config": cfg.short(), "blocks": prog.blocks.len(), "marked items": items, "input": short(&input, 300), "output": short(&output, 300)}));
             }
         }
